@@ -292,16 +292,16 @@ Fixpoint gfold (mk : nat -> edge) (acc : forest) (i : nat) (es : list oexpr) : f
 Lemma getter_of_seq a b : getter_of (OSeq a b) = gfold EContentI [] 0 (a :: seq_elems b).
 Proof.
   cbn [getter_of gfold].
-  generalize (join [] (prepend (EContentI 0) (getter_of a))) as acc. generalize 1 as i.
-  induction b; intros i acc; try reflexivity.
+  generalize (join [] (prepend (EContentI 0) (getter_of a))) as acc0. generalize 1 as j0.
+  induction b; intros j0 acc0; try reflexivity.
   cbn [seq_elems gfold]. rewrite <- IHb2. reflexivity.
 Qed.
 
 Lemma getter_of_choice a b : getter_of (OChoice a b) = gfold EChoiceI [] 0 (a :: choice_elems b).
 Proof.
   cbn [getter_of gfold].
-  generalize (join [] (prepend (EChoiceI 0) (getter_of a))) as acc. generalize 1 as i.
-  induction b; intros i acc; try reflexivity.
+  generalize (join [] (prepend (EChoiceI 0) (getter_of a))) as acc0. generalize 1 as j0.
+  induction b; intros j0 acc0; try reflexivity.
   cbn [choice_elems gfold]. rewrite <- IHb2. reflexivity.
 Qed.
 
@@ -355,10 +355,10 @@ Lemma mention_refs_choice x a b n i c :
   mention_refs x (OChoice a b) (NChoice n i c) =
   match nth_error (a :: choice_elems b) i with Some e => mention_refs x e c | None => [] end.
 Proof.
-  cbn [mention_refs]. destruct i as [|i]; [reflexivity|]. cbn [nth_error].
-  revert i. induction b; intros i; cbn [choice_elems];
-    try (destruct i as [|i]; cbn [nth_error]; [reflexivity|destruct i; reflexivity]).
-  destruct i as [|i]; cbn [nth_error]; [reflexivity|]. rewrite <- IHb2. reflexivity.
+  cbn [mention_refs]. destruct i as [|j]; [reflexivity|]. cbn [nth_error].
+  revert j. induction b; intros j; cbn [choice_elems];
+    try (destruct j as [|j]; cbn [nth_error]; [reflexivity|destruct j; reflexivity]).
+  destruct j as [|j]; cbn [nth_error]; [reflexivity|]. rewrite <- IHb2. reflexivity.
 Qed.
 
 (* ================================================================ unique keys *)
@@ -371,15 +371,12 @@ Qed.
 Lemma nodup_getter_of_size : forall n e, osize e < n -> NoDup (names (getter_of e)).
 Proof.
   induction n as [|n IH]; intros e Hn; [lia|].
-  destruct e; cbn [osize] in Hn.
-  all: try (cbn [getter_of names map]; constructor).
+  destruct e; cbn [osize] in Hn;
+    try (cbn [getter_of names map]; apply NoDup_nil);
+    try (cbn [getter_of]; rewrite names_prepend; apply IH; lia).
   - (* OIdent *) cbn. constructor; [intros []|constructor].
-  - (* OPosPred *) cbn [getter_of]. rewrite names_prepend. apply IH. lia.
   - (* OSeq *) rewrite getter_of_seq. apply nodup_gfold. constructor.
   - (* OChoice *) rewrite getter_of_choice. apply nodup_gfold. constructor.
-  - (* OOpt *) cbn [getter_of]. rewrite names_prepend. apply IH. lia.
-  - (* ORep *) cbn [getter_of]. rewrite names_prepend. apply IH. lia.
-  - (* OPush *) cbn [getter_of]. rewrite names_prepend. apply IH. lia.
   - (* ORestore *) cbn [getter_of]. apply IH. lia.
 Qed.
 
@@ -430,6 +427,13 @@ Proof. destruct t; cbn [has_shape]; try contradiction. intros ->. eauto. Qed.
 
 Lemma shape_neg e t : has_shape (TNeg e) t -> t = NNeg.
 Proof. destruct t; cbn [has_shape]; try contradiction. reflexivity. Qed.
+
+Lemma forall2_map_l {A B C} (R : B -> C -> Prop) (f : A -> B) l l' :
+  Forall2 R (map f l) l' -> Forall2 (fun a b => R (f a) b) l l'.
+Proof.
+  revert l'. induction l as [|a r IH]; intros l' H; inversion H; subst; constructor; [assumption|].
+  apply IH. assumption.
+Qed.
 
 Lemma skipn_nth {A} (l : list A) i :
   skipn i l = match nth_error l i with Some a => a :: skipn (S i) l | None => [] end.
@@ -498,7 +502,7 @@ Section TheoremA.
       assert (Hall : forall e, In e (e1 :: seq_elems e2) -> osize e < n).
       { intros e He. apply seq_all_size in He. cbn [osize] in He. lia. }
       revert Hall Hf. generalize (e1 :: seq_elems e2) as es. clear Hs Hn.
-      intros es Hall Hf. rewrite Forall2_map_l_iff in Hf.
+      intros es Hall Hf. apply forall2_map_l in Hf.
       induction Hf as [|e it es its Hs _ IHf]; [reflexivity|].
       cbn [szip mzip]. rewrite (IH e (Hall e (or_introl eq_refl)) k _ Hs). f_equal.
       apply IHf. intros e' He'. apply Hall. right. exact He'.
@@ -520,7 +524,7 @@ Section TheoremA.
       apply (IH e ltac:(lia) k c Hc).
     - (* ORep *)
       cbn [Translate.tr] in Hs. destruct (shape_rep _ _ _ _ _ Hs) as (b & items & -> & Hf).
-      cbn [getter_of mention_refs]. rewrite sem_prepend_contents.
+      cbn [getter_of mention_refs]. rewrite sem_prepend_contents. clear Hs.
       induction Hf as [|it its Hit _ IHf]; cbn [flat_map]; [reflexivity|].
       rewrite (IH e ltac:(lia) k _ Hit). f_equal. exact IHf.
     - (* OPush *)
@@ -530,3 +534,189 @@ Section TheoremA.
       cbn [Translate.tr] in Hs. cbn [getter_of mention_refs]. apply (IH e ltac:(lia) k t Hs).
   Qed.
 End TheoremA.
+
+(* ================================================================ Theorem B: for identifiers that store a rule struct,
+   the nodes at the mentions are exactly the rule's nodes stored directly in the value *)
+Ltac shape_leaf Hs :=
+  repeat match goal with
+         | |- [] = [] => reflexivity
+         | H : False |- _ => contradiction H
+         | H : _ /\ _ |- _ => destruct H
+         | H : has_shape _ ?t |- _ => is_var t; destruct t; cbn [has_shape length] in H; try contradiction H
+         | |- context [direct_refs _ (NChoice _ ?i _)] => cbn [direct_refs]
+         | H : context [match ?i with O => _ | S _ => _ end] |- _ => is_var i; destruct i
+         end.
+
+Lemma builtin_no_rules eoi b r t : b <> BEoi -> has_shape (builtin_texpr eoi b) t -> direct_refs r t = [].
+Proof.
+  intros Hb Hs. destruct b; try congruence; cbn [builtin_texpr] in Hs;
+    destruct t; cbn [has_shape] in Hs; try contradiction Hs; try reflexivity; cbn [direct_refs].
+  - (* hex digit *) destruct Hs as [_ Hs]. destruct i as [|[|[|i]]]; try contradiction Hs;
+      destruct t; cbn [has_shape] in Hs; try contradiction Hs; reflexivity.
+  - (* alpha *) destruct Hs as [_ Hs]. destruct i as [|[|i]]; try contradiction Hs;
+      destruct t; cbn [has_shape] in Hs; try contradiction Hs; reflexivity.
+  - (* alphanumeric *) destruct Hs as [_ Hs]. destruct i as [|[|i]]; try contradiction Hs.
+    + destruct t; cbn [has_shape] in Hs; try contradiction Hs. destruct Hs as [_ Hs]. cbn [direct_refs].
+      destruct i as [|[|i]]; try contradiction Hs; destruct t; cbn [has_shape] in Hs; try contradiction Hs; reflexivity.
+    + destruct t; cbn [has_shape] in Hs; try contradiction Hs; reflexivity.
+Qed.
+
+Lemma no_clash_seq_elems eoi x b : no_clash eoi x b = true -> forall e, In e (seq_elems b) -> no_clash eoi x e = true.
+Proof.
+  induction b; intros H e' He; cbn [seq_elems] in He; try (destruct He as [<-|[]]; exact H).
+  cbn [no_clash] in H. apply andb_true_iff in H. destruct H as [H1 H2].
+  destruct He as [<-|He]; [exact H1|]. apply IHb2; assumption.
+Qed.
+
+Lemma no_clash_choice_elems eoi x b : no_clash eoi x b = true -> forall e, In e (choice_elems b) -> no_clash eoi x e = true.
+Proof.
+  induction b; intros H e' He; cbn [choice_elems] in He; try (destruct He as [<-|[]]; exact H).
+  cbn [no_clash] in H. apply andb_true_iff in H. destruct H as [H1 H2].
+  destruct He as [<-|He]; [exact H1|]. apply IHb2; assumption.
+Qed.
+
+Section TheoremB.
+  Variable eoi : N.
+  Variable x : ident.
+  Variable r : N.
+  Hypothesis Hkey : rule_key eoi x = Some r.
+
+  Lemma ident_direct y k t :
+    no_clash eoi x (OIdent y) = true -> has_shape (tr_ident eoi k y) t ->
+    (if ident_eqb y x then [t] else []) = direct_refs r t.
+  Proof.
+    cbn [no_clash]. unfold key_clash. rewrite Hkey. intros Hc Hs.
+    assert (Hrule : forall r', rule_key eoi y = Some r' -> has_shape (TRule r' (match y with IdRule _ => k | _ => SkOn end)) t ->
+                               (if ident_eqb y x then [t] else []) = direct_refs r t).
+    { intros r' Hy Ht. rewrite Hy in Hc. destruct (shape_rule _ _ _ Ht) as (c & sp & ->). cbn [direct_refs].
+      destruct (ident_eqb y x) eqn:E.
+      - apply ident_eqb_eq in E. subst y. rewrite Hkey in Hy. inversion Hy; subst. rewrite N.eqb_refl. reflexivity.
+      - rewrite ident_eqb_sym in Hc. rewrite E in Hc. cbn [negb andb] in Hc. rewrite andb_true_r in Hc.
+        apply negb_true_iff in Hc. rewrite N.eqb_sym. rewrite Hc. reflexivity. }
+    destruct y as [r'|b|p].
+    - apply (Hrule r' eq_refl). exact Hs.
+    - destruct b; try (apply (Hrule eoi eq_refl); exact Hs);
+        (replace (ident_eqb _ x) with false
+          by (symmetry; apply ident_eqb_neq; intros <-; cbn in Hkey; discriminate Hkey);
+         symmetry; eapply builtin_no_rules; [|exact Hs]; discriminate).
+    - replace (ident_eqb (IdUnicode p) x) with false
+        by (symmetry; apply ident_eqb_neq; intros <-; cbn in Hkey; discriminate Hkey).
+      cbn [tr_ident] in Hs. destruct t; cbn [has_shape] in Hs; try contradiction Hs. reflexivity.
+  Qed.
+
+  Lemma mention_direct_size : forall n e, osize e < n -> no_clash eoi x e = true -> forall k t,
+    has_shape (Translate.tr eoi k e) t -> mention_refs x e t = direct_refs r t.
+  Proof.
+    induction n as [|n IH]; intros e Hn Hc k t Hs; [lia|].
+    destruct e; cbn [osize] in Hn;
+      try (cbn [Translate.tr] in Hs; destruct t; cbn [has_shape] in Hs; try contradiction Hs; reflexivity).
+    - (* OIdent *) cbn [mention_refs]. apply ident_direct with (k := k); assumption.
+    - (* OPosPred *)
+      cbn [Translate.tr] in Hs. destruct (shape_pos _ _ Hs) as (c & -> & Hc').
+      cbn [mention_refs direct_refs]. apply (IH e ltac:(lia) Hc k c Hc').
+    - (* OSeq *)
+      rewrite tr_seq in Hs. destruct (shape_seq _ _ _ Hs) as (items & -> & Hf).
+      rewrite mention_refs_seq. cbn [direct_refs].
+      assert (Hall : forall e, In e (e1 :: seq_elems e2) -> osize e < n /\ no_clash eoi x e = true).
+      { intros e He. split.
+        - apply seq_all_size in He. cbn [osize] in He. lia.
+        - cbn [no_clash] in Hc. apply andb_true_iff in Hc. destruct Hc as [H1 H2].
+          destruct He as [<-|He]; [exact H1|]. eapply no_clash_seq_elems; eassumption. }
+      revert Hall Hf. generalize (e1 :: seq_elems e2) as es. clear Hs Hn Hc.
+      intros es Hall Hf. apply forall2_map_l in Hf.
+      induction Hf as [|e it es its Hs _ IHf]; [reflexivity|].
+      cbn [mzip flat_map]. destruct (Hall e (or_introl eq_refl)) as [H1 H2].
+      rewrite (IH e H1 H2 k _ Hs). f_equal.
+      apply IHf. intros e' He'. apply Hall. right. exact He'.
+    - (* OChoice *)
+      rewrite tr_choice in Hs. destruct (shape_choice _ _ Hs) as (i & c & te & -> & Hnth & Hc').
+      rewrite mention_refs_choice. cbn [direct_refs].
+      rewrite nth_error_map in Hnth.
+      destruct (nth_error (e1 :: choice_elems e2) i) as [e|] eqn:En; [|discriminate].
+      cbn [option_map] in Hnth. inversion Hnth; subst te.
+      apply nth_error_In in En.
+      apply (IH e) with (k := k); [| |exact Hc'].
+      + apply choice_all_size in En. cbn [osize] in En. lia.
+      + cbn [no_clash] in Hc. apply andb_true_iff in Hc. destruct Hc as [H1 H2].
+        destruct En as [<-|He]; [exact H1|]. eapply no_clash_choice_elems; eassumption.
+    - (* OOpt *)
+      cbn [Translate.tr] in Hs. cbn [mention_refs no_clash] in *.
+      destruct (shape_opt _ _ Hs) as [->|(c & -> & Hc')]; [reflexivity|].
+      cbn [direct_refs]. apply (IH e ltac:(lia) Hc k c Hc').
+    - (* ORep *)
+      cbn [Translate.tr] in Hs. destruct (shape_rep _ _ _ _ _ Hs) as (b & items & -> & Hf).
+      cbn [mention_refs direct_refs no_clash] in *. clear Hs.
+      induction Hf as [|it its Hit _ IHf]; cbn [flat_map]; [reflexivity|].
+      rewrite (IH e ltac:(lia) Hc k _ Hit). f_equal. exact IHf.
+    - (* OPush *)
+      cbn [Translate.tr] in Hs. destruct (shape_push _ _ Hs) as (c & -> & Hc').
+      cbn [mention_refs direct_refs]. apply (IH e ltac:(lia) Hc k c Hc').
+    - (* ORestore *)
+      cbn [Translate.tr] in Hs. cbn [mention_refs no_clash] in *. apply (IH e ltac:(lia) Hc k t Hs).
+  Qed.
+End TheoremB.
+
+(* a rule identifier other than the index reserved for EOI never clashes *)
+Lemma no_clash_rule eoi r e : r <> eoi -> no_clash eoi (IdRule r) e = true.
+Proof.
+  intros Hr. induction e; cbn [no_clash]; try reflexivity; try assumption;
+    try (rewrite IHe1, IHe2; reflexivity).
+  unfold key_clash. cbn [rule_key]. destruct i as [r'|b|p]; cbn [rule_key]; try reflexivity.
+  - cbn [ident_eqb]. destruct (r =? r')%N; reflexivity.
+  - destruct b; try reflexivity. cbn [ident_eqb negb]. rewrite andb_true_r.
+    apply negb_true_iff. apply N.eqb_neq. exact Hr.
+Qed.
+
+(* the EOI getter: no clash as long as no grammar rule carries the reserved index *)
+Lemma no_clash_eoi eoi e : mentions eoi e = false -> no_clash eoi (IdBuiltin BEoi) e = true.
+Proof.
+  induction e; cbn [no_clash mentions]; intros H; try reflexivity; try (apply IHe; exact H);
+    try (apply orb_false_iff in H; destruct H as [H1 H2]; rewrite IHe1, IHe2 by assumption; reflexivity).
+  unfold key_clash. cbn [rule_key]. destruct i as [r'|b|p]; cbn [rule_key]; try reflexivity.
+  - cbn [ident_eqb negb]. rewrite andb_true_r. apply negb_true_iff. rewrite N.eqb_sym. exact H.
+  - destruct b; try reflexivity. rewrite ident_eqb_refl. cbn [negb]. rewrite andb_false_r. reflexivity.
+Qed.
+
+(* ---- the main statements *)
+Theorem getters_mention eoi k e x t :
+  has_shape (Translate.tr eoi k e) t ->
+  sem (getter_of e) x t = mention_refs x e t.
+Proof. apply (getters_mention_size eoi x (S (osize e))). lia. Qed.
+
+Lemma sem_getter e x g t : getter e x = Some g -> sem (getter_of e) x t = flatten_gval (eval_g g t).
+Proof. unfold getter, sem. intros ->. reflexivity. Qed.
+
+Theorem getters_ident eoi k e x g t :
+  has_shape (Translate.tr eoi k e) t -> getter e x = Some g ->
+  flatten_gval (eval_g g t) = mention_refs x e t.
+Proof. intros Hs Hg. rewrite <- (sem_getter e x g t Hg). apply getters_mention with (eoi := eoi) (k := k). exact Hs. Qed.
+
+Theorem getters_direct eoi k e r g t :
+  r <> eoi ->
+  has_shape (Translate.tr eoi k e) t -> getter e (IdRule r) = Some g ->
+  flatten_gval (eval_g g t) = direct_refs r t.
+Proof.
+  intros Hr Hs Hg. rewrite (getters_ident eoi k e _ g t Hs Hg).
+  apply (mention_direct_size eoi (IdRule r) r eq_refl (S (osize e))) with (k := k); [lia| |exact Hs].
+  apply no_clash_rule. exact Hr.
+Qed.
+
+Theorem getters_direct_eoi eoi k e g t :
+  mentions eoi e = false ->
+  has_shape (Translate.tr eoi k e) t -> getter e (IdBuiltin BEoi) = Some g ->
+  flatten_gval (eval_g g t) = direct_refs eoi t.
+Proof.
+  intros Hm Hs Hg. rewrite (getters_ident eoi k e _ g t Hs Hg).
+  apply (mention_direct_size eoi (IdBuiltin BEoi) eoi eq_refl (S (osize e))) with (k := k); [lia| |exact Hs].
+  apply no_clash_eoi. exact Hm.
+Qed.
+
+(* a getter exists exactly for the identifiers mentioned outside negative predicates *)
+Fixpoint mentioned (x : ident) (e : oexpr) : bool :=
+  match e with
+  | OIdent y => ident_eqb y x
+  | ONegPred _ => false
+  | OPosPred e1 | OOpt e1 | ORep e1 | OPush e1 | ORestore e1 => mentioned x e1
+  | OSeq a b | OChoice a b => mentioned x a || mentioned x b
+  | _ => false
+  end.
